@@ -200,6 +200,27 @@ example : WfProg chain = true := by decide
 example : names (resolve chain (.entry 3)) = ["k", "n", "b"] := by decide
 example : accepts chain (.entry 3) "a" = false ∧ accepts chain (.entry 3) "b" = true := by decide
 
+/-- `**kwargs` kept in an attribute and forwarded later with hard-coded arguments, and a classmethod
+    factory `cls(**kwargs)` asked for on a subclass that inherits it (the class lists what it offers):
+      def f0(a: int = 0, b: str = 'x', c: float = 1.0)
+      class K1:  __init__(self, e=1, **kw): kw.pop('z', 1); self._kw = kw      use(self): f0(1, c=…, **self._kw)
+                 @classmethod mk(cls, q, r=1, **kw): return cls(**kw)
+      class K2(K1): __init__(self, g=0, **kw): super().__init__(**kw)          (K2.mk is K1's)
+      def f3(t='t', **kw): K2.mk('q', **kw) -/
+def attrProg : Prog :=
+  let mk : Callable := ⟨[req "q" "str", pk "r" "int" "1"], true, [al (.call .clsSelf 0 [])]⟩
+  ⟨[.fn ⟨[pk "a" "int" "0", pk "b" "str" "x", pk "c" "float" "1.0"], false, []⟩,
+    .cls ⟨some ⟨[pk "e" "int" "1"], true, [al (.pop "z" (dv "1")), al (.call (.attrEntry 0) 1 ["c"])]⟩, [], [], [mk]⟩,
+    .cls ⟨some ⟨[pk "g" "int" "0"], true, [al (.superCall none 0 [])]⟩, [1], [], [mk]⟩,
+    .fn ⟨[pk "t" "str" "t"], true, [al (.call (.classMeth 2 0) 1 [])]⟩]⟩
+
+example : WfProg attrProg = true ∧ noPopClash attrProg = true := by decide
+example : names (resolve attrProg (.entry 1)) = ["e", "z", "b"] := by decide
+example : names (resolve attrProg (.cmeth 2 0)) = ["q", "r", "g", "e", "z", "b"] := by decide
+example : names (resolve attrProg (.entry 3)) = ["t", "r", "g", "e", "z", "b"] := by decide
+example : accepts attrProg (.entry 3) "c" = false ∧ accepts attrProg (.entry 3) "q" = false ∧
+    accepts attrProg (.entry 3) "b" = true ∧ accepts attrProg (.cmeth 2 0) "q" = true := by decide
+
 /-- #14b: `extra = kwargs.get('extra', 5); super().__init__(**kwargs)` -/
 def progGet : Prog := ⟨[base,
   klass (some ⟨[pk "c" "int" "1"], true, [al (.get "extra" (dv "5")), al (.superCall none 0 [])]⟩) [0]]⟩
